@@ -7,7 +7,7 @@ props = [json.loads(l)["id"] for l in open(os.path.join(ROOT, "properties.jsonl"
 CHECKS = {
  "C15": dict(
   level="fault_enumeration", engine="fault",
-  technique="exhaustive single/double fault-position enumeration and kill-point enumeration on the real write paths",
+  technique="exhaustive single/double fault-position enumeration (x kinds of error value, x really cancelled contexts), kill-point enumeration (hook points and single system calls) on the real write paths, and exhaustive enumeration of the interleavings of overlapping atomic puts",
   text="Every destination operation (put, each write incl. short write, close, rename) recorded in a fault-free run of each write path is failed one at a time (thorough: every pair) on the real code, over memory buckets and over the disk bucket's internal hook points; an atomic put is observed at, and a real subprocess SIGKILLed at, every hook point. Oracles: fault fired => error returned; nil error => destination complete; observers see old or complete new content only.",
   note="Faults are injected at the storage interfaces and the storageos hook points; crash = process death (no power-loss/fsync model). Source sets are 3 fixed small sets; write positions per object capped at 3-4.",
   design="3/C15"),
@@ -15,33 +15,33 @@ CHECKS = {
 
 CHECKS["C13"] = dict(
   level="exploration", engine="enum",
-  technique="bounded-exhaustive enumeration of path strings x bucket shapes x operations on the real buckets with sentinels, against a lexical reference model",
+  technique="bounded-exhaustive enumeration of path strings x bucket shapes x operations (and archive entry kinds) on the real buckets with sentinels, against a lexical reference model; all operation histories up to depth 3 on disk buckets with relative roots, observed between Put, Write and Close",
   text="Every path string of 1..3 (thorough 4) components over {a . .. '' a.b ..a ...} with optional leading/trailing slash is applied with every operation (Get, Stat, Walk, Put, atomic Put, Delete, DeleteAll, CopyPath, Copy into a sub-view) to 14 bucket shapes (disk with/without symlink support, memory, prefix views of depth 1-2, chained mappers, filter, union, overlay, strip, limit), as tar/zip entry names with strip 0..2, and as plugin response file names; sentinels outside every root must stay byte-identical, no read may return sentinel data, and every name that the reference stack machine says escapes or is absolute must be rejected.",
   note="Component alphabet and length are bounded; no symlinks pointing outside the root in the fixture; unix path semantics only.",
   design="3/C13")
 CHECKS["C14"] = dict(
   level="model_checking", engine="statex",
-  technique="explicit-state BFS over a reference map model; every transition replayed on fresh real buckets with a full observation menu; plus depth-bounded sequence enumeration",
+  technique="explicit-state BFS over a reference map model; every transition replayed on fresh real buckets with a full observation menu; plus depth-bounded sequence enumeration, also on long-lived union/overlay views over live members",
   text="All 256 states of the reference model (4-path prefix-free universe x {absent, empty, 1 byte, 70 KiB}) are reached by BFS with every operation of the alphabet; each of the model transitions is replayed on each of 12 writable implementations/combinators along the shortest model path and the complete observation menu (Get/Stat of 5 spellings per path, non-object paths, Walk of 10 prefixes incl. file-equal and string-prefix-colliding ones) is compared. Every model state is also materialised through tar/zip round trips, copies between kinds and filters; union/overlay duplicates are checked in every state.",
   note="Universe is prefix-free (documented orphan-directory behaviour of the disk bucket is outside the quantifier); ObjectInfo.Path() is compared up to normalisation.",
   design="3/C14")
 
 CHECKS["C09"] = dict(
   level="fault_enumeration", engine="sched",
-  technique="exhaustive crash-point, fault-position, tampering enumeration plus delay-bounded exhaustive schedule exploration of store/load processes under a controlled scheduler",
+  technique="exhaustive crash-point, fault-position, tampering enumeration plus delay-bounded exhaustive schedule exploration of store/load processes under a controlled scheduler; explicit-state enumeration of cache states x multi-key requests x two-request histories through the caching providers; second reader started at every storage operation of the lazy digest verification",
   text="The real module data store (dir and tar layouts) on a real directory: (1) the directory is snapshotted at every storage step and disk hook point of a store and every snapshot is recovered from (load in all accessor orders, store again, load), plus real SIGKILLs of a subprocess at every hook point; (2) every single (thorough: pair of) failing put/close/disk write/short write/rename/lock operation; (3) store/load 'processes' with separate store objects sharing the directory and a reader-writer lock table run as threads of a cooperative scheduler: every schedule with at most 3 (thorough 4) deviations from the default schedule, also starting from a crashed directory and with an injected write failure as an environment choice, oracle at every load and on the quiescent state; (4) every single-file tampering of a complete entry incl. every byte of module.yaml, and of a commit-store entry (every byte, every well-formed document with one field removed/blanked, swapped digest type) through both lookup routes. Oracle: a load is a miss, exactly the pinned content (files, dependency digests, v1 side files), or an error - never other content; failed/interrupted stores are repaired by a later store; an acknowledged store leaves a loadable entry.",
   note="Crash = process death (directory content at that instant; no fsync/power-loss model). Processes are goroutines with separate objects; scheduling points are bucket-level operations and lock operations (writes into private temp files are invisible and not points); delay bounding rather than full preemption bounding; the real flock locker is checked separately for the RW semantics the lock table assumes.",
   design="3/C09")
 CHECKS["C19"] = dict(
   level="model_checking", engine="enum",
-  technique="every sentence of a reference grammar model (BUF_TOKEN strings, netrc entry sequences, request hosts) up to a length bound replayed on the real token providers, interceptor chain and CLI",
+  technique="every sentence of a reference grammar model (BUF_TOKEN strings, netrc entry sequences, request hosts) up to a length bound replayed on the real token providers, interceptor chain and CLI; exhaustive interleavings of Make calls on a shared config; .netrc put/delete histories against a reference model of the file",
   text="All BUF_TOKEN strings up to length 7 (thorough 9) over {t,u,h,:,@,','} and over a host-symbol alphabet, all netrc entry sequences of <=4 entries in 3 layouts, all request hosts from a derived menu are evaluated by a reference model (recogniser + generator cross-checked) and replayed on NewTokenProviderFromContainer/String, the netrc provider, the authorization interceptor through connectclient.Make with a recording in-process HTTP client, and `buf registry whoami` against loopback registries. Oracle: header present iff the model configures that host, with that token; never a token of another host; malformed strings rejected as a whole; env beats netrc; first duplicate wins.",
   note="Host comparison is exact-string; alphabet has no whitespace/non-ASCII; TLS off in the CLI phase; two cases the documentation leaves open (':' in an entry token, duplicated host) accept either behaviour.",
   design="3/C19")
 
 CHECKS["C02"] = dict(
   level="exploration", engine="joborder",
-  technique="exhaustive enumeration of owned nondeterminism: all job orders of each thread.Parallelize call, walk-order permutations, map-iteration seeds via a runtime overlay, parallelism grid, listing orders; byte equality with the baseline execution",
+  technique="exhaustive enumeration of owned nondeterminism: all job orders of each thread.Parallelize call, walk-order permutations, map-iteration seeds via a runtime overlay, parallelism grid, listing orders of modules/rules/plugins/paths, module directories, commit-cache histories; byte equality with the baseline execution",
   text="Eight output functions (serialized image, lint text, breaking text, format+diff, file listing, dependency graph + digests + image with four pinned commits of one remote module, module digests, type-filtered images) are re-executed at every point of each nondeterminism dimension the harness owns: every execution order of the jobs of every thread.Parallelize call seen (all n! up to 4 jobs, else reverse/rotations/adjacent swaps; also at parallelism 2 where the check server chunks files), reverse/rotation/swap/24-permutation/single-call perturbations of every storage Walk, Go map iteration seeds 0..63 (settable through a build-time overlay of runtime/map.go), the GOMAXPROCS x thread-parallelism grid, and permutations of listed modules, rule ids and dependency pins. Every output must be byte-identical to the baseline.",
   note="Scheduling inside protocompile and inside the in-process bufplugin check server is not controlled; the map-seed sweep rotates all maps alike; multiClient.Check has a single delegate in these scenarios (no second plugin).",
   design="3/C02")
